@@ -104,6 +104,9 @@ static void step_consumer(int c) {
 void harness(void) {
     R = (EbSystemResource *)calloc(1, sizeof(*R)); V_ASSUME(R != NULL);
     EbErrorType e = svt_system_resource_ctor(R, NOBJ, 1, NCONS, payload_creator, NULL, NULL); V_ASSUME(e == EB_ErrorNone);
+    /* representation invariant established by the constructor: one waiter slot per process fifo (a blocked process registers once) */
+    V_ASSERT(R->full_queue->process_queue->buffer_total_count >= (uint32_t)NCONS && R->empty_queue->process_queue->buffer_total_count >= 1u, "waiter ring holds one registration per consumer / producer fifo");
+    V_ASSERT(R->full_queue->object_queue->buffer_total_count >= (uint32_t)NOBJ && R->empty_queue->object_queue->buffer_total_count >= (uint32_t)NOBJ, "object rings hold every object of the pool");
     for (int s = 0; s < K; s++) {
         int t = (int)vin_range(0, NCONS + 1);
         cur = t;
